@@ -16,7 +16,7 @@ LEVEL = "fault_enumeration"
 NEEDS = ["harness", "cli", "shim"]
 RULE = ("files per format (vcf, vcf.gz, bgzf bcf, raw bcf; 0.4-3 KB; npy and text spectra): quick 1 / thorough 6 per shard-format; for EACH file the first "
         "chunk length takes every value 1..len (exhaustive) x rest {all at once, random 1-64, 1 byte}; a read fault (kinds Other, BrokenPipe, "
-        "ConnectionReset) at every offset 0..len-1 (L) / a strided subset (S); writers accepting 1-7 bytes per call and failing at every offset. "
+        "ConnectionReset; the reader then keeps failing / reports end of input / carries on) at every offset 0..len-1 (L) / a strided subset (S); writers accepting 1-7 bytes per call and failing at every offset. "
         "Baseline = the all-at-once result. A fault only obliges failure when the adapter recorded that it was DELIVERED. "
         "Non-trivial: any schedule with first chunk < len, any delivered fault; distinct = (file digest, schedule/fault).")
 ASSUMPTIONS = ["UnexpectedEof / Interrupted are not injected: std and noodles legitimately treat them as end-of-stream / retry",
@@ -27,6 +27,7 @@ FLOORS = {"quick": {"evaluations": 20000, "distinct_nontrivial": 15000, "counts"
 NSHARD = 32
 FORMATS = ["vcf", "vcf.gz", "bcf", "rawbcf"]
 KINDS = ["Other", "BrokenPipe", "ConnectionReset"]
+MODES = ["sticky", "once-eof", "once-continue"]
 
 
 def plan(tier, seed):
@@ -74,8 +75,9 @@ def check_L_create(S, p):
                 meta.append(("chunk", (first, rest_kind)))
         for off in range(n):
             kind = KINDS[off % 3]
-            reqs.append(E.l2_request(data, smap, threads=threads, fail_at=off, fail_kind=kind, chunks=[rng.randint(1, 97) for _ in range(8)], rest=rng.choice([1, 13, 4096])))
-            meta.append(("fault", (off, kind)))
+            for mode in MODES:
+                reqs.append(E.l2_request(data, smap, threads=threads, fail_at=off, fail_kind=kind, fail_mode=mode, chunks=[rng.randint(1, 97) for _ in range(8)], rest=rng.choice([1, 13, 4096])))
+                meta.append(("fault", (off, kind, mode)))
         res = harness.run_all(reqs, timeout=1200)
         base = res[0]
         wit0 = {"level": "L", "format": fmt, "data_hex": data.hex(), "map": E.map_json(smap), "threads": threads}
@@ -102,19 +104,21 @@ def check_L_create(S, p):
                 S.case(key="%s|c|%d|%s" % (fd, first, rest_kind), nontrivial=first < n)
             else:
                 S.count("L_read_faults")
-                off, kind = arg
+                off, kind, mode = arg
                 delivered = r.get("io", {}).get("fault_delivered")
                 if "panic" in r or r.get("died") or r.get("thread_panic"):
                     S.viol("C18:panic", "[L %s fault %s at %d] panicked: %s" % (fmt, kind, off, str(r)[:300]), dict(wit0, fail_at=off, kind=kind))
                 elif delivered:
                     S.count("L_read_faults_delivered")
+                    S.count("L_read_faults_%s" % mode)
                     S.observe("fault_offsets_delivered_%s" % fmt, off)
-                    if "scs" in r:
-                        S.viol("C18:read-fault:%s" % fmt, "[L %s, %d bytes] reader failed with %s at offset %d (delivered) but create succeeded with %d sites" % (
-                            fmt, n, kind, off, r.get("sites", -1)), dict(wit0, fail_at=off, kind=kind))
+                    # a transient error after which the stream continues may be retried: then the COMPLETE result is fine too
+                    if "scs" in r and not (mode == "once-continue" and baseline_key(r) == bkey):
+                        S.viol("C18:read-fault:%s" % fmt, "[L %s, %d bytes] reader failed with %s at offset %d (delivered, mode %s) but create returned Ok with %d sites%s" % (
+                            fmt, n, kind, off, mode, r.get("sites", -1), " (partial data)" if baseline_key(r) != bkey else ""), dict(wit0, fail_at=off, kind=kind, mode=mode))
                 elif baseline_key(r) != bkey:
                     S.viol("C18:fault-undelivered-differs", "[L %s fault at %d not delivered] result differs from baseline" % (fmt, off), dict(wit0, fail_at=off, kind=kind))
-                S.case(key="%s|f|%d" % (fd, off), nontrivial=bool(delivered))
+                S.case(key="%s|f|%d|%s" % (fd, off, mode), nontrivial=bool(delivered))
         if fi == 0 and p["i"] < 4:
             S.sample({"level": "L", "format": fmt, "bytes": n, "threads": threads, "schedules": "first chunk 1..%d x {all, rand, one}" % n,
                       "baseline_sites": base.get("sites"), "example_io_record": res[1].get("io")})
@@ -181,7 +185,7 @@ def check_L_npy(S, p):
             reqs.append(r)
             meta.append(("chunk", (first, rest)))
     for off in range(n):
-        reqs.append({"op": "read_npy", "data": data.hex(), "fail_at": off, "fail_kind": KINDS[off % 3], "rest": [1, 5, 64, 100000][off % 4]})
+        reqs.append({"op": "read_npy", "data": data.hex(), "fail_at": off, "fail_kind": KINDS[off % 3], "fail_mode": MODES[:2][off % 2], "rest": [1, 5, 64, 100000][off % 4]})
         meta.append(("fault", off))
     res = harness.run_all(reqs)
     base = res[0]
